@@ -52,12 +52,31 @@ func Known() map[string]string {
 	for _, l := range strings.Split(knownText, "\n") {
 		l = strings.TrimSpace(l)
 		if l != "" && !strings.HasPrefix(l, "#") {
+			if strings.HasPrefix(l, "~") {
+				continue // plumbing helpers are not "known": see Plumbing
+			}
 			parts := strings.SplitN(l, "|", 2)
 			if len(parts) == 2 {
 				m[parts[0]] = parts[1]
 			} else {
 				m[parts[0]] = ""
 			}
+		}
+	}
+	return m
+}
+
+// Plumbing returns the functions of the confirmed tree that only pass values along (emit or
+// forward a value, get/put a pooled buffer, build a node from its parts). They are marked `~` in
+// the table and are expanded at their hand-written call sites like any helper, so that the rules
+// see one shape whether or not a later change inlines them by hand; calls from the generated
+// parser keep them (the rules that skip generated code must still see their bodies).
+func Plumbing() map[string]bool {
+	m := map[string]bool{}
+	for _, l := range strings.Split(knownText, "\n") {
+		l = strings.TrimSpace(l)
+		if strings.HasPrefix(l, "~") {
+			m[strings.SplitN(l[1:], "|", 2)[0]] = true
 		}
 	}
 	return m
@@ -133,12 +152,15 @@ type norm struct {
 	rep   *Report
 	seq   int
 
-	decls    map[*types.Func]*ast.FuncDecl
-	fileOf   map[*ast.FuncDecl]*ast.File
-	leaf     map[*types.Func]bool
-	defOf    map[types.Object]*ast.Ident
-	relaxed  bool
-	skipOnce map[string]bool
+	decls       map[*types.Func]*ast.FuncDecl
+	fileOf      map[*ast.FuncDecl]*ast.File
+	leaf        map[*types.Func]bool
+	defOf       map[types.Object]*ast.Ident
+	relaxed     bool
+	skipOnce    map[string]bool
+	plumbing    map[string]bool
+	inGenerated bool
+	curFn       *ast.FuncDecl
 }
 
 // Normalize rewrites files in place. It returns the package and info of the final type check
@@ -148,7 +170,7 @@ func Normalize(fset *token.FileSet, files []*ast.File, pkg *types.Package, info 
 	for k := range knownSigs {
 		known[k] = true
 	}
-	n := &norm{fset: fset, files: files, pkg: pkg, info: info, known: known, rep: &Report{Expanded: map[string]int{}}, skipOnce: map[string]bool{}}
+	n := &norm{fset: fset, files: files, pkg: pkg, info: info, known: known, rep: &Report{Expanded: map[string]int{}}, skipOnce: map[string]bool{}, plumbing: Plumbing()}
 	// a known function that was merely renamed keeps its role: a declaration outside the table
 	// whose receiver and signature are those of a known function that is absent from the tree
 	// is treated as that function
@@ -420,12 +442,14 @@ func (n *norm) round() (bool, error) {
 	changed := false
 	for _, f := range n.files {
 		file := f
+		n.inGenerated = isGenerated(f)
 		for _, d := range f.Decls {
 			fd, ok := d.(*ast.FuncDecl)
 			if !ok || fd.Body == nil {
 				continue
 			}
 			localNames := n.localNames(fd)
+			n.curFn = fd
 			// (0) hoist statements out of if/switch init positions when they hold an expandable call
 			astutil.Apply(fd.Body, func(c *astutil.Cursor) bool {
 				switch s := c.Node().(type) {
@@ -550,7 +574,24 @@ func (n *norm) site(call *ast.CallExpr) (*types.Func, *ast.FuncDecl) {
 	if call.Ellipsis.IsValid() {
 		return nil, nil
 	}
+	if n.inGenerated && n.plumbing[Key(d)] {
+		return nil, nil
+	}
 	return fn, d
+}
+
+func isGenerated(f *ast.File) bool {
+	for i, cg := range f.Comments {
+		if i > 3 {
+			break
+		}
+		for _, c := range cg.List {
+			if strings.Contains(c.Text, "Code generated") && strings.Contains(c.Text, "DO NOT EDIT") {
+				return true
+			}
+		}
+	}
+	return false
 }
 
 // trivial: evaluating e has no effect and reads only variables (identifiers, literals, field
@@ -939,7 +980,15 @@ func (n *norm) expandMode(call *ast.CallExpr, fn *types.Func, d *ast.FuncDecl, c
 	suffix := fmt.Sprintf("_i%d", n.seq)
 	nd, _ := n.renamedCopy(d, suffix)
 	ex := &expansion{}
-	bind := func(name *ast.Ident, typ ast.Expr, val ast.Expr) {
+	bind := func(name *ast.Ident, typ ast.Expr, val ast.Expr, want types.Type) {
+		// a parameter the callee never assigns, bound to a caller variable of the same type that
+		// is itself assigned only once, is that variable (no copy, hence no new captured cell)
+		if name != nil && name.Name != "_" && want != nil && !assignedIn(nd.Body, name.Name) {
+			if id, ok := ast.Unparen(val).(*ast.Ident); ok && n.aliasable(id, want) {
+				substIdent(nd.Body, name.Name, func() ast.Expr { return &ast.Ident{Name: id.Name} })
+				return
+			}
+		}
 		if name == nil || name.Name == "_" {
 			ex.stmts = append(ex.stmts, &ast.AssignStmt{Lhs: []ast.Expr{ident("_")}, Tok: token.ASSIGN, Rhs: []ast.Expr{&ast.CallExpr{Fun: &ast.ParenExpr{X: typ}, Args: []ast.Expr{val}}}})
 			return
@@ -954,18 +1003,18 @@ func (n *norm) expandMode(call *ast.CallExpr, fn *types.Func, d *ast.FuncDecl, c
 		if len(rf.Names) == 1 {
 			nm = rf.Names[0]
 		}
-		bind(nm, rf.Type, recvExpr)
+		bind(nm, rf.Type, recvExpr, sig.Recv().Type())
 	}
 	ai := 0
 	if nd.Type.Params != nil {
 		for _, f := range nd.Type.Params.List {
 			if len(f.Names) == 0 {
-				bind(nil, copyExpr(f.Type), call.Args[ai])
+				bind(nil, copyExpr(f.Type), call.Args[ai], nil)
 				ai++
 				continue
 			}
 			for _, nm := range f.Names {
-				bind(nm, copyExpr(f.Type), call.Args[ai])
+				bind(nm, copyExpr(f.Type), call.Args[ai], sig.Params().At(ai).Type())
 				ai++
 			}
 		}
@@ -1279,7 +1328,7 @@ func (n *norm) literalize(call *ast.CallExpr, file *ast.File, fd *ast.FuncDecl, 
 		return false
 	}
 	d := n.decls[fn]
-	if d == nil || !n.leaf[fn] || call.Ellipsis.IsValid() {
+	if d == nil || !n.leaf[fn] || call.Ellipsis.IsValid() || (n.inGenerated && n.plumbing[Key(d)]) {
 		return false
 	}
 	if d.Type.TypeParams != nil {
@@ -1663,4 +1712,62 @@ func substIdent(body *ast.BlockStmt, name string, mk func() ast.Expr) {
 		}
 		return true
 	}, nil)
+}
+
+// aliasable: id denotes a local variable or parameter of the calling function, of exactly the
+// wanted type, that is assigned only by its declaration (never reassigned, incremented, ranged
+// into or address-taken anywhere in the function, closures included).
+func (n *norm) aliasable(id *ast.Ident, want types.Type) bool {
+	obj, ok := n.info.Uses[id].(*types.Var)
+	if !ok || obj.IsField() || obj.Parent() == nil || obj.Parent() == n.pkg.Scope() || n.curFn == nil {
+		return false
+	}
+	if !types.Identical(obj.Type(), want) {
+		return false
+	}
+	single := true
+	is := func(e ast.Expr) bool {
+		x, ok := ast.Unparen(e).(*ast.Ident)
+		return ok && n.info.Uses[x] == types.Object(obj)
+	}
+	ast.Inspect(n.curFn, func(x ast.Node) bool {
+		switch s := x.(type) {
+		case *ast.AssignStmt:
+			for _, l := range s.Lhs {
+				if is(l) {
+					single = false
+				}
+			}
+		case *ast.IncDecStmt:
+			if is(s.X) {
+				single = false
+			}
+		case *ast.UnaryExpr:
+			if s.Op == token.AND && is(s.X) {
+				single = false
+			}
+		case *ast.RangeStmt:
+			if s.Key != nil && is(s.Key) || s.Value != nil && is(s.Value) {
+				single = false
+			}
+			// a loop variable is assigned anew in every iteration (one variable for the whole
+			// loop before Go 1.22): never an alias
+			for _, kv := range []ast.Expr{s.Key, s.Value} {
+				if id, ok := kv.(*ast.Ident); ok && n.info.Defs[id] == types.Object(obj) {
+					single = false
+				}
+			}
+		case *ast.ForStmt:
+			if s.Init != nil {
+				ast.Inspect(s.Init, func(y ast.Node) bool {
+					if id, ok := y.(*ast.Ident); ok && n.info.Defs[id] == types.Object(obj) {
+						single = false
+					}
+					return true
+				})
+			}
+		}
+		return single
+	})
+	return single
 }
